@@ -109,6 +109,21 @@ def r_form(f):
     return "f:ok:" + "&".join("%s=%s" % (enc(k), enc(v)) for k, v in items)
 
 
+_FIRST = {}
+
+
+def same_object(req, kind, value):
+    """'Repeated accesses return the IDENTICAL cached result': the form (and the parsed JSON document) of one
+    request is one object, however often it is asked for and whatever was called in between (close() included)"""
+    key = (id(req), kind)
+    if key not in _FIRST:
+        if len(_FIRST) > 64:
+            _FIRST.clear()
+        _FIRST[key] = (req, value)       # holds req, so the id stays taken
+        return True
+    return _FIRST[key][0] is req and _FIRST[key][1] is value
+
+
 def r_items(items):
     return "[" + ";".join(enc(bytes(i)) for i in items) + "]"
 
@@ -171,7 +186,8 @@ def w_op(req, op):
         if op == "j":
             return r_json(req.json)
         if op == "f":
-            return r_form(req.form)
+            form = req.form
+            return r_form(form) if same_object(req, "f", form) else "f:another-object-than-before"
         if op == "c":
             req.close()
             return "c:ok"
@@ -319,7 +335,8 @@ class Stepper:
                 if op == "j":
                     return r_json(await req.json)
                 if op == "f":
-                    return r_form(await req.form)
+                    form = await req.form
+                    return r_form(form) if same_object(req, "f", form) else "f:another-object-than-before"
                 if op == "c":
                     await req.close()
                     return "c:ok"
@@ -984,7 +1001,8 @@ def run_gated(ct, msgs, progs, events):
                 if op == "j":
                     return r_json(await req.json)
                 if op == "f":
-                    return r_form(await req.form)
+                    form = await req.form
+                    return r_form(form) if same_object(req, "f", form) else "f:another-object-than-before"
                 if op == "c":
                     await req.close()
                     return "c:ok"
